@@ -358,7 +358,7 @@ Qed.
 
 Lemma unquote_slashes : forall rs esc name, unquote_lit rs esc = Some name -> (slashes name <= slashes (concat (map snd rs)))%nat.
 Proof.
-  induction rs as [|[r b] rs IH]; intros esc name H; cbn [unquote_lit] in H; [inversion H; cbn; lia|].
+  induction rs as [|[r b] rs IH]; intros esc name H; cbn [unquote_lit] in H; [destruct esc; [discriminate|]; inversion H; cbn; lia|].
   cbn [map concat snd]. rewrite slashes_app.
   destruct (r =? RuneError); [discriminate|].
   destruct ((r =? 92) && negb esc); [apply IH in H; lia|].
